@@ -188,6 +188,7 @@ impl UnifyProp {
     }
 
     fn check_history(&self, h: &[(Term, Term)], rep: &mut Report) -> CaseResult {
+        if rep.decode_only { return CaseResult::Pass; }
         let has_anon = h.iter().any(|(a, b)| a.has_anon() || b.has_anon());
         if self.aspect == UAspect::Mgu && has_anon { rep.class("history-with-$_ (also C09)"); }
         if self.aspect == UAspect::Anon && !has_anon { return CaseResult::Discard("no $_ in history".into()); }
